@@ -122,6 +122,14 @@ def val_places(v):
             if x is not None:
                 for p in val_places(x):
                     yield p
+    elif k == "discr":
+        yield v[1]
+    elif k == "pending":
+        inner = v[1]
+        for x in inner[1:]:
+            if isinstance(x, tuple) and x and x[0] in ("n", "iv"):
+                for p in val_places(x):
+                    yield p
 
 
 def cond_places(c):
@@ -142,6 +150,12 @@ def cond_places(c):
     elif k == "optval":
         for p in val_places(c[1]):
             yield p
+    elif k == "conj":
+        for lst in c[1:]:
+            for (a, b, d) in lst:
+                for x in (a, b):
+                    for p in val_places(x):
+                        yield p
     elif k == "pred":
         for x in c[3]:
             if x is not None:
